@@ -93,6 +93,27 @@ def run_case(ctx, case):
         if addrs[0] != want_addr:
             bad('address.reference', 'wallets derive %s, reference sorted-key %d-of-%d script gives %s' %
                 (addrs[0], m, n, want_addr))
+        ref_scripts = {want_addr: want_script}
+        # the same on the change chain and for a second index
+        for change, index in ((1, 0), (0, 1)):
+            want_a, want_s = _ref_script(case, change, index)
+            ref_scripts[want_a] = want_s
+            got = []
+            for i, w in enumerate(wallets):
+                try:
+                    if wt == 'legacy':
+                        k = w.new_key(cosigner_id=0, change=change)
+                    else:
+                        k = w.new_key(change=change)
+                    got.append((k.address, k.path))
+                except Exception as e:
+                    bad('new_key.raises', 'wallet %d new_key(change=%d) raised %r' % (i, change, e))
+            if len(set(a for a, _ in got)) != 1:
+                bad('address.disagree', 'cosigner wallets derive different addresses for change=%d index %d: %r' %
+                    (change, index, got))
+            if got[0][0] != want_a:
+                bad('address.reference', 'change=%d index=%d: wallets derive %s (%s), reference gives %s' %
+                    (change, index, got[0][0], got[0][1], want_a))
         # ---- (2) ceremony -------------------------------------------------------------------------------------
         creator = case['creator'] % n
         wa = wallets[creator]
@@ -101,8 +122,9 @@ def run_case(ctx, case):
             # update UTXO's if this is not an offline wallet"); an unsynchronised wallet is not explored
             for w in wallets:
                 w.utxos_update()
-            utxos = wa.utxos()
-            u = utxos[0]
+            utxos = [x for x in wa.utxos() if x['address'] in ref_scripts]
+            u = utxos[case['creator'] % len(utxos)]
+            want_script = ref_scripts[u['address']]
             fee = 50000
             t = wa.transaction_create([(_foreign(), u['value'] - fee)],
                                       [(u['txid'], u['output_n'], u['key_id'], u['value'])], fee=fee)
